@@ -211,12 +211,19 @@ def run_case(case):
     times = None
     rv_before = []
     chk_rows = r.choice(n, min(n, 3), replace=False).tolist()
+    try:  # prefer rows wrap_K has to move (K < 0)
+        neg = [i for i in range(n) if float(np.asarray(s["K"].value).reshape(-1)[i]) < 0]
+        chk_rows = (neg[:2] + [i for i in chk_rows if i not in neg[:2]])[: max(1, min(n, 3))]
+    except Exception:
+        pass
     try:
         if s.t_ref is not None:
             from astropy.time import Time
 
             times = s.t_ref + np.linspace(0, 40, 9) * u.day
-            rv_before = [s.get_orbit(i).radial_velocity(times).to_value(u.km / u.s) for i in chk_rows]
+            # orbits are requested from the SAME object before and after wrap_K (anything the object remembers about its
+            # orbits must follow the in-place change)
+            rv_before = [w.get_orbit(i).radial_velocity(times).to_value(u.km / u.s) for i in chk_rows]
         w.wrap_K()
         wt = table_of(w)
         wd = dict((c, v) for c, _, v in wt[0])
